@@ -566,7 +566,14 @@ class Dynamic(Parameter):
         """
         super().__set__(obj,val)
 
-        dynamic = callable(val)
+        # A reference (allow_refs) is resolved by the superclass: the
+        # object that was assigned is a generator only if it is also
+        # what got stored.
+        if obj is None:
+            stored = self.default
+        else:
+            stored = obj._param__private.values.get(self.name)
+        dynamic = callable(val) and stored is val
         if dynamic: self._initialize_generator(val,obj)
         if obj is None: self._set_instantiate(dynamic)
 
